@@ -114,7 +114,7 @@ pub fn felt(s: &mut Src, m: Md) -> Felt {
         0 => {
             // canonical boundary table
             let two256 = &zp::c().two256;
-            let tbl: [BigUint; 12] = [
+            let tbl: [BigUint; 15] = [
                 BigUint::zero(),
                 BigUint::one(),
                 BigUint::from(2u32),
@@ -127,8 +127,12 @@ pub fn felt(s: &mut Src, m: Md) -> Felt {
                 BigUint::one() << 255,
                 (two256 - p) - 1u32,
                 two256 % p,
+                // values whose STORED limbs are the integers 1, 2, p-1 (a canonical/Montgomery mix-up turns them into 1, 2, -1)
+                m.rinv().clone(),
+                (m.rinv() * 2u32) % p,
+                p - m.rinv(),
             ];
-            Felt { v: tbl[s.choose(12)].clone() % p, class: "canon-boundary" }
+            Felt { v: tbl[s.choose(15)].clone() % p, class: "canon-boundary" }
         }
         1 => {
             // 2^i, 2^i +- 1, p - 2^i
@@ -175,6 +179,22 @@ pub fn felt(s: &mut Src, m: Md) -> Felt {
             let x = BigUint::from_bytes_be(&s.bytes(32)) % p;
             Felt { v: x, class: "uniform" }
         }
+    }
+}
+
+/// non-zero constants that a canonical / Montgomery mix-up maps to special values: R^-1, 2R^-1, -R^-1 (stored limbs = 1, 2, p-1),
+/// R, R^2 (canonical value = stored form of 1 resp. of R) and R^-2 (stored = R^-1)
+pub fn mont_confusion(s: &mut Src, m: Md) -> BigUint {
+    let p = m.p();
+    let ri = m.rinv();
+    let r1 = &zp::c().two256 % p;
+    match s.choose(6) {
+        0 => ri.clone(),
+        1 => (ri * 2u32) % p,
+        2 => p - ri,
+        3 => r1,
+        4 => (&r1 * &r1) % p,
+        _ => (ri * ri) % p,
     }
 }
 
